@@ -267,7 +267,7 @@ func (p *Prog) streamPhaseEdges(fn *ssa.Function, callVar ssa.Value) map[edge]bo
 func (c *completion) identityGuarded(ls *Locksets, d MapOp, callVar ssa.Value, lookups []MapOp) bool {
 	p := c.p
 	for _, l := range lookups {
-		if l.Fn != d.Fn || !p.originsSubset(l.Key, d.Key) || !ls.SameSection(l.Instr, d.Instr, "Conn.mutex") {
+		if !p.sameFn(l.Fn, d.Fn) || !p.originsSubset(l.Key, d.Key) || !ls.SameSection(l.Instr, d.Instr, "Conn.mutex") {
 			continue
 		}
 		lv := ssa.Value(l.Instr.(*ssa.Lookup))
@@ -408,7 +408,7 @@ func runC02(c *Check, a *Analysis) {
 					}
 					removes := false
 					for _, d := range dels {
-						if d.Fn != fn {
+						if !p.sameFn(d.Fn, fn) {
 							continue
 						}
 						if e, ok := p.canon(d.Key).(*ssa.Extract); ok && e.Tuple == ssa.Value(nx) && e.Index == 1 && ls.SameSection(s.Instr, d.Instr, "Conn.mutex") {
@@ -476,7 +476,7 @@ func runC02(c *Check, a *Analysis) {
 	for _, d := range dels {
 		var m *MapOp
 		for i := range ups {
-			if ups[i].Fn == d.Fn {
+			if p.sameFn(ups[i].Fn, d.Fn) {
 				m = &ups[i]
 			}
 		}
